@@ -16,7 +16,7 @@ if [ -z "${SKIP_BASELINE:-}" ]; then
     echo "MUTANT-INVALID: does not build or baseline tests fail"; tail -5 "$copy/.baseline.log"; exit 3
   fi
 fi
-cd /verif && VERIF_REPO="$copy" ./check "$prop" --no-evidence "$@"
+cd /verif && VERIF_REPLAY_DIR="$copy/.replays" VERIF_REPO="$copy" ./check "$prop" --no-evidence "$@"
 rc=$?
 echo "mutant $(basename $patch) on $prop: exit $rc"
 exit $rc
